@@ -208,13 +208,16 @@ def compare(ctx, fam, spec, inputs, outs, failing_fid=None):
             if o.status != piv.status:
                 ctx.violation("C02:status", f"{label}: status {o.status} vs sync {piv.status} ({o.exc!r})", {**case, "variant": label})
                 continue
+            readers = _conflict_readers(spec) if "shuffled" in label else {}
             if o.values != piv.values:
                 diff = sorted(k for k in set(o.values) | set(piv.values) if o.values.get(k, "<absent>") != piv.values.get(k, "<absent>"))
-                ctx.violation("C02:values", f"{label}: values differ from sync run on {diff}: {core.short({k: o.values.get(k) for k in diff})} vs {core.short({k: piv.values.get(k) for k in diff})}", {**case, "variant": label})
+                key = "C02:node-order:conflicting-nested-bindings-reach-plain-reader" if readers and set(diff) <= {e for outs in readers.values() for e in outs} else "C02:values"
+                ctx.violation(key, f"{label}: values differ from sync run on {diff}: {core.short({k: o.values.get(k) for k in diff})} vs {core.short({k: piv.values.get(k) for k in diff})}", {**case, "variant": label})
             m = multiset(o.rec)
             if m != pm:
                 d = (m - pm) + (pm - m)
-                ctx.violation("C02:invocations", f"{label}: multiset of (node, arguments) differs from sync run: {core.short(list(d.items())[:3], 400)}", {**case, "variant": label})
+                key = "C02:node-order:conflicting-nested-bindings-reach-plain-reader" if readers and {f for (f, _a) in d} <= {f"{spec['name']}/{n}" for n in readers} else "C02:invocations"
+                ctx.violation(key, f"{label}: multiset of (node, arguments) differs from sync run: {core.short(list(d.items())[:3], 400)}", {**case, "variant": label})
         else:
             # failing (or otherwise non-completing) run: same error everywhere, sync partial subset of async partial
             if "shuffled" in label and failing_fid is not None and len(failing_fid) > 1:
@@ -238,6 +241,23 @@ def compare(ctx, fam, spec, inputs, outs, failing_fid=None):
                             key = "C02:partial"
                         ctx.violation(key, f"{label}: sync partial value {k}={core.short(v)} missing/different in async partial result ({core.short(o.values.get(k, '<absent>'))})", {**case, "variant": label})
                         break
+
+
+def _conflict_readers(spec):
+    """Classifier of the known finding: plain (non-nested) top-level function nodes that read, without a default, a
+    name which two or more sibling nested graphs bind to DIFFERENT values and which the enclosing graph does not bind
+    itself -> {node name: its outputs}."""
+    bound_by = {}
+    for ns in spec["nodes"]:
+        if ns["k"] == "sub":
+            for k, v in (ns["prog"].get("bind") or {}).items():
+                bound_by.setdefault(k, []).append(v)
+    conflict = {k for k, vs in bound_by.items() if len(vs) >= 2 and any(v != vs[0] for v in vs) and k not in (spec.get("bind") or {})}
+    out = {}
+    for ns in spec["nodes"]:
+        if ns["k"] == "fn" and any(p["n"] in conflict and "d" not in p for p in ns.get("params", [])) and not ns.get("rename_in"):
+            out[ns["name"]] = list(ns.get("outs", []))
+    return out
 
 
 def _same_exc(a, b):
@@ -302,8 +322,9 @@ def run(ctx):
         return
     if ctx.shard[0] == 0:
         returned_object_kinds(ctx)
+    forced = ["sibling-bindings", "sibling-bindings", "sibling-bindings", "compose", "compose"] if ctx.shard[0] == 0 and not os.environ.get("HGMON_ONLY_FAMILY") else []
     for i in range(n):
-        fam = families.pick(ctx.rng, ["dag", "dag-fallback", "gated", "loop", "waitdag", "waitdag", "rewait", "lateclosed", "nested-entry", "early-shared", "compose", "compose"] if not os.environ.get("HGMON_ONLY_FAMILY") else [os.environ["HGMON_ONLY_FAMILY"]])
+        fam = families.pick(ctx.rng, [forced[i]]) if i < len(forced) else families.pick(ctx.rng, ["dag", "dag-fallback", "gated", "loop", "waitdag", "waitdag", "rewait", "lateclosed", "nested-entry", "early-shared", "compose", "compose", "sibling-bindings"] if not os.environ.get("HGMON_ONLY_FAMILY") else [os.environ["HGMON_ONLY_FAMILY"]])
         spec, inputs, kw = fam["spec"], fam["inputs"], fam.get("kw", {})
         _one(ctx, fam, spec, inputs, kw, None)
         # one failing node per program (error collected)
